@@ -186,6 +186,10 @@ def get_odesys(
     r_exprs = [rxn.rate_expr() for rxn in rsys.rxns]
     _ori_pk = set.union(*(ratex.all_parameter_keys() for ratex in r_exprs))
     _ori_uk = set.union(*(ratex.all_unique_keys() for ratex in r_exprs))
+    for uk in _ori_uk:
+        if uk in rsys.substances or uk == "time":
+            # the value would be looked up among the concentrations (the time)
+            raise ValueError("Unique key '%s' clashes with a substance key / time" % uk)
     _subst_pk = set()
     _active_subst = OrderedDict()
     _passive_subst = OrderedDict()
